@@ -72,19 +72,32 @@ func sortOnCopy(g *verifapi.Graph) Sx {
 	return T("sorted", B(ok), Ints(unnames(l)))
 }
 
+// apply one mutating operation; ok=false for queries
+func apply(g *verifapi.Graph, o op) (Sx, bool) {
+	switch o.kind {
+	case "addnode":
+		return T("b", B(g.AddNode(name(o.a)))), true
+	case "addedge":
+		return T("i", I(g.AddEdge(name(o.a), name(o.b)))), true
+	case "rmedge":
+		return T("b", B(g.RemoveEdge(name(o.a), name(o.b)))), true
+	case "reindex":
+		g.ReindexNode(name(o.a))
+		return T("u"), true
+	}
+	return Sx{}, false
+}
+
 func runCase(ops []op) (obs []Sx) {
 	g := verifapi.NewGraph()
+	var prefix []op // the mutating operations so far
 	for _, o := range ops {
+		if r, ok := apply(g, o); ok {
+			obs = append(obs, r)
+			prefix = append(prefix, o)
+			continue
+		}
 		switch o.kind {
-		case "addnode":
-			obs = append(obs, T("b", B(g.AddNode(name(o.a)))))
-		case "addedge":
-			obs = append(obs, T("i", I(g.AddEdge(name(o.a), name(o.b)))))
-		case "rmedge":
-			obs = append(obs, T("b", B(g.RemoveEdge(name(o.a), name(o.b)))))
-		case "reindex":
-			g.ReindexNode(name(o.a))
-			obs = append(obs, T("u"))
 		case "sort":
 			// several runs on independent copies: Go randomises map iteration per range loop, so a
 			// dependence on map order shows up as differing answers
@@ -95,6 +108,18 @@ func runCase(ops []op) (obs []Sx) {
 				if again.String() != first.String() {
 					res = T("nondet", first, again)
 					break
+				}
+			}
+			// "equal inputs give equal orders": rebuild the graph from the same operation sequence
+			// (AddEdge / ReindexNode iterate maps too) and sort again
+			for k := 0; k < 3 && res.Tag() != "nondet"; k++ {
+				g2 := verifapi.NewGraph()
+				for _, p := range prefix {
+					apply(g2, p)
+				}
+				again := sortOnCopy(g2)
+				if again.String() != first.String() {
+					res = T("nondet", first, again)
 				}
 			}
 			obs = append(obs, res)
